@@ -145,7 +145,7 @@ PROPS["C11"]["families"] = [GENERAL_S, fam("fam_sched", 48, 1200), fam("fam_hold
 PROPS["C12"]["families"] = [GENERAL_S, fam("fam_sched", 32, 800), fam("fam_conf", 48, 1200)]
 PROPS["C13"]["families"] = [GENERAL_S, fam("fam_ring", 24, 400), fam("fam_quiesce", 10, 200), fam("fam_extcmd", 16, 300)]
 PROPS["C14"]["families"] = [GENERAL_S, fam("fam_hold", 40, 800)]
-PROPS["C15"]["families"] = [GENERAL_S, fam("fam_quiesce", 40, 800), fam("fam_sched", 16, 200)]
+PROPS["C15"]["families"] = [GENERAL_S, fam("fam_quiesce", 40, 800), fam("fam_sched", 16, 200), fam("fam_offsets", 20, 20)]
 PROPS["C16"]["families"] = [fam("fam_mutex", 64, 1600), {"name": "fam_general_mutex", "gen": fam_general(lines=3, mutex=True), "quick": 30, "thorough": 600}]
 PROPS["C18"]["families"] = [GENERAL_S, fam("fam_sched", 32, 800), fam("fam_hold", 16, 300), fam("fam_cut", 40, 800)]
 PROPS["C20"]["families"] = [GENERAL_S, fam("fam_hist", 60, 1500), fam("fam_hist_twins", 160, 3000)]
